@@ -48,6 +48,11 @@ def run(ctx):
             ctx.check(name == m and recv_ok, 'R09.1', key, b.where(bi), b.path,
                       'delegates to `%s` (receiver self.%s: %s) instead of `%s`' % (name, kf[w], recv_ok, m),
                       found='Virtual(Kinematics::%s)' % name, expected='Virtual(Kinematics::%s)' % m, detail='-> ' + name)
+            # the second argument of the inverse entry points (previous / j6) is the caller's, for every wrapper
+            if m in util.INVERSE_METHODS and len(t['args']) > 2 and w not in WRAPPERS:
+                a2 = b.op_term(t['args'][2], (bi, None))
+                ctx.check(util.is_param(a2, 3), 'R09.3', key + '/arg', b.where(bi), b.path,
+                          'second argument (previous / j6) is not passed unchanged', found=show(a2))
     ctx.floor('R09.1 cells', cells, 40)
 
     # ---- R09.2 / R09.3 for Tool, Base, Frame
